@@ -695,6 +695,7 @@ func (w *World) commit(c *ContactState, rec *SessionRec, call *Call, o *Outcome)
 	}
 
 	s := call.Session
+	w.reachProbes(call)
 	rec.UUID = string(s.UUID())
 	rec.JSON = call.After
 	rec.Status = string(s.Status())
@@ -817,4 +818,74 @@ func cloneJ(j gen.J) gen.J {
 	var out gen.J
 	json.Unmarshal(b, &out)
 	return out
+}
+
+// reachProbes counts rare-but-important conditions a run actually reached.
+func (w *World) reachProbes(c *Call) {
+	s := c.Session
+	types := map[string]int{}
+	for _, e := range c.Events {
+		t, _ := e["type"].(string)
+		types[t]++
+		switch t {
+		case "failure":
+			if txt, _ := e["text"].(string); txt != "" {
+				switch {
+				case strings.Contains(txt, "maximum number of steps"):
+					w.probe("reach_step_limit_failure")
+				case strings.Contains(txt, "maximum number of resumes"):
+					w.probe("reach_resume_limit_failure")
+				case strings.Contains(txt, "child run"):
+					w.probe("reach_child_failure_bubbled")
+				case strings.Contains(txt, "failed to pick a category"):
+					w.probe("reach_router_without_category")
+				case strings.Contains(txt, "missing flow asset"):
+					w.probe("reach_flow_missing_at_resume")
+				case strings.Contains(txt, "no longer exists"), strings.Contains(txt, "unable to find resume location"):
+					w.probe("reach_node_vanished")
+				case strings.Contains(txt, "without a router or wait"):
+					w.probe("reach_wait_vanished")
+				}
+			}
+		case "webhook_called":
+			if r, _ := e["retries"].(float64); r > 0 {
+				w.probe("reach_http_retry_performed")
+			}
+		}
+	}
+	for k, probe := range map[string]string{"contact_refreshed": "reach_contact_refreshed", "environment_refreshed": "reach_environment_refreshed",
+		"wait_timed_out": "reach_timeout_taken", "run_expired": "reach_run_expired", "dial_ended": "reach_dial_ended", "flow_entered": "reach_subflow_entered",
+		"airtime_transferred": "reach_airtime", "email_sent": "reach_email", "service_called": "reach_classifier", "resthook_called": "reach_resthook",
+		"ticket_opened": "reach_ticket", "optin_requested": "reach_optin", "broadcast_created": "reach_broadcast", "input_labels_added": "reach_labels",
+		"ivr_created": "reach_ivr", "dial_wait": "reach_dial_wait"} {
+		if types[k] > 0 {
+			w.probe(probe)
+		}
+	}
+	if c.Kind == "start" && c.ResumeType == "msg" && types["msg_wait"] == 0 && s.Status() != flows.SessionStatusWaiting {
+		w.probe("reach_msg_trigger_ran_through")
+	}
+	depth := 0
+	terminalInChild := false
+	for _, r := range s.Runs() {
+		if d := runDepth(r); d > depth {
+			depth = d
+		}
+	}
+	for _, e := range c.Events {
+		if e["type"] == "flow_entered" && e["terminal"] == true {
+			if run, _ := s.FindStep(flows.StepUUID(fmt.Sprint(e["step_uuid"]))); run != nil && run.ParentInSession() != nil {
+				terminalInChild = true
+			}
+		}
+	}
+	if depth >= 2 {
+		w.probe("reach_run_depth_3plus")
+	}
+	if terminalInChild {
+		w.probe("reach_terminal_enter_inside_subflow")
+	}
+	if c.Kind == "resume" && c.ResumeType == "run_expiration" && len(s.Runs()) > 1 {
+		w.probe("reach_expiration_with_subflows")
+	}
 }
